@@ -1,4 +1,5 @@
 from algo_prop import make
+LEAN_EXTRA = ["PyXABProofs.Generated.FormulasC09"]
 from common import fbits
 ALGOS = ['GPO', 'PCT', 'VPCT']
 budget, explore, search, replay = make("C09", ALGOS, quick_per_algo=12, thorough_per_algo=150, salt=900)
@@ -62,3 +63,10 @@ def explore(tier, seed, n):
     res["n_ops"] += n_ops
     res.setdefault("extra", {})["schedule_constants_enumerated"] = sw.meta["n_checked"]
     return res
+
+
+def regenerate(tier):
+    """translator tie for N and the phase length: GPO.__init__ is executed on symbolic (rho_max, n) and the traced
+    expressions are re-proved equal to the published ones over every field, on every run"""
+    import translate_formulas
+    return translate_formulas.generate("C09")
